@@ -7,18 +7,42 @@ def commits():
     return [l.split()[0] for l in out.splitlines() if l.split(" ", 1)[1].startswith("verif hooks:")]
 
 CLAIMED = {
- "C08": dict(cat="exploration", ref="DESIGN.md §3 C08", text="wip", note="wip", tech="deterministic simulation"),
- "C20": dict(cat="exploration", ref="DESIGN.md §3 C20", text="wip", note="wip", tech="deterministic simulation"),
- "C02": dict(cat="fault_enumeration", ref="DESIGN.md §3 C02", text="wip", note="wip", tech="deterministic simulation"),
- "C03": dict(cat="exploration", ref="DESIGN.md §3 C03", text="wip", note="wip", tech="deterministic simulation"),
- "C16": dict(cat="exploration", ref="DESIGN.md §3 C16", text="wip", note="wip", tech="deterministic simulation"),
- "C10": dict(cat="exploration", ref="DESIGN.md §3 C10", text="wip", note="wip", tech="deterministic simulation"),
- "C09": dict(cat="exploration", ref="DESIGN.md §3 C09", text="wip", note="wip", tech="deterministic simulation"),
- "C01": dict(cat="exploration", ref="DESIGN.md §3 C01", text="wip", note="wip", tech="deterministic simulation"),
+ "C01": dict(cat="exploration", ref="DESIGN.md §3 C01",
+   text="Seeded terminal sessions for all ten text emulations (ANSI with DCS/OSC/APS/macro/music/sixel, Avatar, PCBoard, Ctrl-A, Renegade, PETSCII, ATASCII, Viewdata, Mode 7, ASCII) on screens 1..132 x 1..60: a host stub emits tokens from per-emulation tables, a simulated line injects 11 fault kinds (bit flip, drop, dup, noise burst, retransmit, reorder, carrier cut + redial, 7-bit strip, XON/XOFF, NUL padding, loopback of the terminal's own replies), decode threads are released and the UI polls at scheduler-chosen points. After every byte: the call returned Ok or Err, no panic (caught, keyed by enclosing engine function), the worker process is alive, and the next byte is accepted. Sampling; a clean batch is evidence, not proof.",
+   note="Release-profile arithmetic. Step-fuel, depth and allocator budgets end runaway runs; such endings are C03 verdicts, not C01 ones. Worker aborts (SIGSEGV/SIGABRT) are attributed to the in-flight run and confirmed by solo replay.",
+   tech="deterministic simulation: seeded workload + line-fault injection, per-byte crash oracle"),
+ "C02": dict(cat="fault_enumeration", ref="DESIGN.md §3 C02",
+   text="Base files are produced by the engine's own writers (18 extensions, PSF/raw fonts, TDF bundles, 5 palette formats, clipboard payloads) from seeded documents; a simulated disk applies 12 stored-byte fault kinds (short, torn sector, lost sector, stale tail, bit rot, overwrite, misdirected and duplicated sector, misnamed file, SAUCE-tail-only, COMNT cut, header extreme) singly and in combinations of 2-3, plus real-file-system legs (missing, directory, empty, no extension). Every entry point named by the property is called on the damaged bytes; oracle: returns Ok/Err/None, no panic, worker alive; the loader's drain loop runs on virtual sleeps with decode threads gated. In addition the single-fault space (every truncation length, every position x {bit 0, bit 7, 0x00, 0xFF, 0x1A}, every aligned 16-byte run zeroed) of 2 (quick) / 64 (thorough) base files of up to 5 200 bytes is enumerated completely by run index; multi-fault combinations are sampled.",
+   note="Nothing is asserted about what a damaged file loads as. Budget overruns are C03 verdicts. Complete only per enumerated base file; across base files and for multi-fault combinations it is sampling.",
+   tech="deterministic simulation: storage fault injection on writer-produced files, crash oracle"),
+ "C03": dict(cat="exploration", ref="DESIGN.md §3 C03",
+   text="Simulated CPU (step fuel ticked at six central engine sites), simulated memory (counting global allocator: 256 MiB live, 64 MiB single request), nesting depth 64 and a 10 s watchdog backstop. Workload: one control function per run after a short set-up, every CSI final x intermediates x 0-6 parameters from {empty,0,1,size,2^16,10^6,2^31-1}, self/mutually recursive and multiplicative macros, hex-macro repeats, sixel raster/repeat/colour headers, font DCS payloads with PSF header extremes, Avatar repeats; every fourth run is a damaged file through the loaders under a 2e8-tick cap. Oracle: total ticks <= 16(n+1)W(H+n+1) + 4WH^2 + 5e5 (constants recorded; worst legitimate case measured at 15 % of the bound).",
+   note="Ticks are placed by hand; a loop touching no tick site is caught only by the allocator budget or the wall-clock watchdog (confirmed by solo replay, counted separately). Nothing is claimed about real running time.",
+   tech="deterministic simulation: resource (CPU/memory/stack) fault budgets as oracle"),
+ "C08": dict(cat="exploration", ref="DESIGN.md §3 C08",
+   text="Seeded edit histories over 63 public editing operations (plus current-layer/caret/selection steering) on 1-3 layer documents, with a second actor interleaving undo j / redo i<=j / undo-then-edit; the first 567 runs force every operation kind first, middle and last in histories of length 1-3. Reference model: observational snapshots (size, modes, palette, fonts, SAUCE, per-layer size/offset/properties/cells) recorded at every operation boundary; every undo/redo step that lands on a boundary must reproduce it, undo/redo must return Ok and not panic, an edit after undo must clear the redo history, an edit that adds no undo record must not change the document. 16 genuine defects are pinned as known findings (class = step kind + description of the operation being undone + differing field).",
+   note="An operation that returns Err or panics ends the history (counted, not a violation). A new defect whose class equals a pinned one is not reported separately.",
+   tech="deterministic simulation: history search with undo/redo schedule against a snapshot reference model"),
+ "C09": dict(cat="exploration", ref="DESIGN.md §3 C09",
+   text="Same sessions and line faults as C01 with a host biased to cursor motion, tabs, margins, origin mode, save/restore, resets and scrolling with a scrollback present. After every delivered byte (until a ResizeTerminal action is observed): 0 <= column < terminal width and first visible row <= row < first visible row + height; for Viewdata and Mode 7 the buffer, terminal and layer geometry stay 40x24.",
+   note="The cursor may be anywhere inside the visible rows. Checking stops at the first ResizeTerminal action of a run.",
+   tech="deterministic simulation: per-byte geometry invariant under line faults"),
+ "C10": dict(cat="exploration", ref="DESIGN.md §3 C10 (scoped)",
+   text="A monitor inside terminal sessions (fill-rectangle code points incl. surrogates and > U+10FFFF, macros, OSC strings, font payloads) and on every successful load of damaged files and clipboard payloads: every cell of every layer holds a Unicode scalar value and every engine-built string (layer titles, font names, SAUCE strings, hyperlink URLs, pending parser strings) is valid UTF-8.",
+   note="Scoped: the unchecked conversions inside the IcyDraw loader sit behind base64+zlib+PNG framing and are reached only when a fault survives that framing. An invalid char is observed numerically after the fact.",
+   tech="deterministic simulation: post-event scalar-value monitor under line, disk and clipboard faults"),
  "C14": dict(cat="exploration", ref="DESIGN.md §3 C14",
    text="Seeded search over decode-completion orders and poll placements with the engine's real decode threads parked at a gate and released one at a time; the canonical schedule space for k<=3 images (33 561 schedules, <=2 polls per gap) is swept completely by run index, larger k sampled. Oracles: rectangularity and declared-raster-size on every decode, arrival-order/shadowing reference model after every poll, no delivery of unfinished decodes, exactly-once, poll never blocks (5 s watchdog, confirmed by solo replay), bounded liveness after all releases. Sampling, not proof.",
    note="Trusts: the gate hook (cfg icy_engine_verif) parks a decode before it reads its payload; the reference image of an arrival is computed by calling the real Sixel::parse_from synchronously; font cell is 8x16 in these runs. 'Never blocks' is a 5 s wall-clock judgement on a microsecond call.",
    tech="deterministic simulation: gated real threads, seeded schedule search, reference-model oracle"),
+ "C16": dict(cat="exploration", ref="DESIGN.md §3 C16 (first sentence only)",
+   text="Palette-index stability under terminal streams: in seeded ANSI sessions biased to colour selection (SGR 38/48;5 and ;2, CSI..t 24-bit colours, resets, line faults) the RGB every already-allocated palette index resolves to is compared after every byte; plus direct seeded histories of insert/set/get/resize/push against a vector model (insert returns an index resolving to that RGB, existing colour returns its first index, old indices keep their value).",
+   note="Not decided: palette file export/import and the 6-bit VGA encoding (pure functions). The session monitor disarms once a ']' byte has been delivered (OSC 4 may legitimately redefine an index).",
+   tech="deterministic simulation: per-byte palette monitor + history search against a vector model"),
+ "C20": dict(cat="exploration", ref="DESIGN.md §3 C20",
+   text="RIPscrip and IGS sessions: the first 7 135 runs take every command with every parameter-list length over digits {0,1,Z} (IGS: 0..12 numbers from {0,1,99999}); later runs are seeded multi-command streams with line faults, an icon cache directory on a scratch file system (missing/empty/truncated/bit-flipped/oversized icons, a directory, mtimes before 1970 and in the future), virtual clock jumps, and a UI actor calling get_next_action and get_picture_data. Oracle: Ok/Err per byte, no panic, worker alive; each event within 256 x canvas ticks (stall); a loop never needs more get_next_action calls than |to-from|/max(step,1)+2 (fault-free runs); every exposed canvas has exactly width x height x 4 bytes.",
+   note="Sleeping is not a stall (IGS delays run on the virtual clock). Cache-file lookups without extension are kept unambiguous so replay does not depend on read_dir order.",
+   tech="deterministic simulation: command-stream search with file-system, clock and line faults; crash, step-budget and canvas oracles"),
 }
 
 NA = {
